@@ -117,3 +117,5 @@ PROP = Prop(
     clauses=[Clause("virtual_vs_materialised", check, strategy=lambda tier: _cases(9 if tier == "quick" else 25), quick=300, thorough=12000,
                     quick_shards=4, min_nontrivial=150, doc="differential: virtual vs materialised")],
 )
+
+RULE_EXTRA = ('the virtual and the materialised object are asked in alternating order with one shared target array.')
